@@ -4082,18 +4082,19 @@ class _SubTensorDict(TensorDictBase):
     ) -> T:
         if inplace:
             raise RuntimeError("Cannot call select inplace on a lazy tensordict.")
-        return self.to_tensordict()._select(
+        # index the selected entries of the source: they share memory with it whenever the index does
+        return self._source._select(
             *keys, inplace=False, strict=strict, set_shared=set_shared
-        )
+        )[self.idx]
 
     def _exclude(
         self, *keys: NestedKey, inplace: bool = False, set_shared: bool = True
     ) -> T:
         if inplace:
             raise RuntimeError("Cannot call exclude inplace on a lazy tensordict.")
-        return self.to_tensordict()._exclude(
-            *keys, inplace=False, set_shared=set_shared
-        )
+        return self._source._exclude(*keys, inplace=False, set_shared=set_shared)[
+            self.idx
+        ]
 
     def expand(self, *args: int, inplace: bool = False) -> T:
         if len(args) == 1 and isinstance(args[0], Sequence):
